@@ -209,6 +209,25 @@ def run_case(case, workdir):
                     near = bool(sm.shared_face_pixels(m, L).any())
                     rec.fail("serial_parallel_or_poison_dependent", {"normal": n, "m": m, "fields": fl, "limit_level": limit,
                              "only_near_shared_face": near}, "outputs differ between serial/poison0 and parallel/poison1")
+    # histories on ONE Mandoline object: slices at two positions, then the first again, vs fresh objects
+    pm = [positions[len(positions) // 3], positions[(2 * len(positions)) // 3]]
+    for serial in (True, False):
+        def hist():
+            with vpool.controlled():
+                with poisoned(MODS, 0):
+                    mo = Mandoline(path, fields=["G", "A", "grid_level"], serial=serial, verbose=0)
+                    return [mo.slice(normal=n, pos=sm.pos_of(m_), fformat="return") for m_ in (pm[0], pm[1], pm[0])]
+        st, val = call(hist)
+        rec.exe([dh, "history", serial], trans=3)
+        if st == "exc":
+            rec.fail("history_raised", {"normal": n, "serial": serial}, exc_text(val))
+        else:
+            for k, m_ in enumerate((pm[0], pm[1], pm[0])):
+                st2, fresh = do(["G", "A", "grid_level"], None, serial, sm.pos_of(m_), 0)
+                if st2 == "ok" and not all(np.array_equal(np.asarray(val[k][f], dtype=float).view(np.uint64), np.asarray(fresh[f], dtype=float).view(np.uint64))
+                                           for f in ("G", "A", "grid_level")):
+                    rec.fail("history_dependent", {"normal": n, "serial": serial, "call": k, "m": m_},
+                             "call %d on a re-used Mandoline object differs from a fresh object" % k)
     # default position = domain centre
     st, val = do(["G"], None, True, None, 0)
     rec.exe([dh, "default_pos"])
